@@ -1,32 +1,38 @@
 (** Byte-size notation as src/bytes.rs reads and prints it (C16). Definitions only.
 
     Text is a list of Unicode scalar values ([N]); the tables (suffix spellings, multipliers
-    as shift counts, display suffixes, the two words) come from Generated/GenBytes.v, which
-    the translator rewrites from the Rust source on every run.
+    as shift counts, display suffixes, the two words) and the numeric constants come from
+    Generated/GenBytes.v, which the translator rewrites from the Rust source on every run.
 
-    FromStr for Bytes, line by line:
+    FromStr for Bytes, line by line (after the repair `fix: compute byte sizes exactly`):
       digits  = text.chars().take_while(is_digit)          [take_while is_numch]
       suffix  = text.chars().skip_while(is_digit)          [skip_while is_numch]
-      value   = digits.parse::<f64>()?                     [parse_number, dec_to_f64]
+      digits.parse::<f64>()?                               [parse_number: only Some/None is used -
+                                                            f64::from_str accepts D+, D+., .D+, D+.D+]
       multiple= match suffix.to_lowercase() { table, _ => Err }   [lower, lookup_unit]
-      Ok(Bytes((value * multiple as f64) as u64))          [f64_to_u64 m (e + shift)]
-
-    Floating point is modelled in exact integer arithmetic: a positive binary64 is a pair
-    (m, e) with value m * 2^e; [to53 a b] is the correctly rounded (nearest, ties to even)
-    quotient a/b as Rust's f64::from_str produces it for a decimal numeral; every multiplier
-    is a power of two (a shift count in the table), so the product is exact; `as u64`
-    truncates towards zero and saturates. The exponent is unbounded in the model: a numeral
-    below 2^-1022 (subnormal / zero in binary64) is below 2^-962 after scaling, so both
-    sides truncate to 0; a product that overflows binary64 becomes +inf, which `as u64`
-    saturates to 2^64-1 exactly as the model's [N.min] does.
+      multiple = u128::from(multiple)                      [2 ^ shift]
+      (whole, fraction) = digits.split_once('.').unwrap_or((&digits, ""))     [split_dot]
+      for digit in whole.chars().filter_map(to_digit(10))
+        integer = integer.saturating_mul(10).saturating_add(digit)            [whole_step, fold_left]
+      for digit in fraction.chars().rev().filter_map(to_digit(10))
+        partial = (digit * multiple + partial) / 10                            [frac_step, fold_right:
+                                                            from the LAST digit; None = u128 overflow panic]
+      count = integer.saturating_mul(multiple).saturating_add(partial)
+      Ok(Bytes(u64::try_from(count).unwrap_or(u64::MAX)))  [to_u64_sat]
 
     Display for Bytes, line by line:
       value = self.0 as f64                                [round53]
-      while value >= 1024.0 { value /= 1024.0; i += 1 }    [unit_loop; the division is exact]
+      unit: u128 = 1
+      while value >= 1024.0 { value /= 1024.0; unit = unit.saturating_mul(1024); i += 1 }
+                                                           [unit_loop; the float division is exact]
       suffix = i == 0 ? (value == 1.0 ? "byte" : "bytes") : DISPLAY_SUFFIXES[i-1]   [unit_word; None = index panic]
-      format!("{value:.2}")                                [fmt2 (rne_div (100 v) (1024^i)): exact decimal
-                                                            expansion of the dyadic value, ties to even]
-      .trim_end_matches('0').trim_end_matches('.')         [trim] *)
+      scaled = 100 * u128::from(self.0)                    [chk128: None = overflow panic]
+      quotient = scaled / unit                             [None when unit = 0: division panic]
+      hundredths = match (2 * (scaled % unit)).cmp(&unit) { Less => quotient,
+                     Equal => quotient + quotient % 2, Greater => quotient + 1 }   [hundredths]
+      format!("{}.{:02}", hundredths / 100, hundredths % 100)                  [fmt2]
+      .trim_end_matches('0').trim_end_matches('.')         [trim]
+    Only the choice of the unit still goes through binary64 ([round53], Model/Float53.v). *)
 From Coq Require Import Decimal DecimalN DecimalFacts.
 From Coq Require Import NArith ZArith Bool List.
 From Imdl Require Import Model.Bencode Model.Float53 Generated.GenBytes.
@@ -71,7 +77,9 @@ Definition lookup_unit (suffix : text) : option N := lookup GenBytes.units (map 
 (* ---------- f64::from_str on a string over [0-9.] ---------- *)
 (** Accepted: digits, with at most one '.', and at least one digit overall ("5.", ".5" are
     accepted; "", ".", "1.0.0" are not). Result: (numerator n, fraction digits f), the
-    numeral denotes n / 10^f. *)
+    numeral denotes n / 10^f. Since the repair [bs_parse] uses only whether this is [Some]
+    (the f64 value is discarded by the code); the pair still serves [numeral_hundredths] in
+    the proofs, which reads printed numerals back. *)
 Definition is_nil (u : uint) : bool := match u with Nil => true | _ => false end.
 
 Definition parse_number (ds : text) : option (N * N) :=
@@ -90,54 +98,86 @@ Definition parse_number (ds : text) : option (N * N) :=
       else None
   end.
 
-(* ---------- correctly rounded quotient as (mantissa, exponent) ---------- *)
-(** multiply by 2^s when s >= 0, identity otherwise *)
-Definition shl (x : N) (s : Z) : N := if (0 <=? s)%Z then x * 2 ^ Z.to_N s else x.
-Definition scaled (a b : N) (e : Z) : N * N := (shl a (- e), shl b e).
-
-(** binary64 nearest to a/b (a, b > 0; exponent range unbounded): m * 2^e with
-    2^52 <= m <= 2^53 *)
-Definition to53 (a b : N) : N * Z :=
-  let e0 := (Z.of_N (N.log2 a) - Z.of_N (N.log2 b) - 52)%Z in
-  let '(a0, b0) := scaled a b e0 in
-  let e := if a0 <? b0 * 2 ^ 52 then (e0 - 1)%Z else e0 in
-  let '(a1, b1) := scaled a b e in
-  (rne_div a1 b1, e).
-
-(** m * 2^E truncated towards zero *)
-Definition trunc (m : N) (E : Z) : N :=
-  if (0 <=? E)%Z then m * 2 ^ Z.to_N E else m / 2 ^ Z.to_N (- E).
-
+(* ---------- u128 / u64 arithmetic ---------- *)
+Definition U128_MAX : N := 2 ^ 128 - 1.
 Definition U64_MAX : N := 2 ^ 64 - 1.
 
-(** `x as u64` for a non-negative double m * 2^E (saturating) *)
-Definition f64_to_u64 (m : N) (E : Z) : N := N.min (trunc m E) U64_MAX.
+(** checked u128 arithmetic (overflow checks are on in the builds the checks run): None = panic *)
+Definition chk128 (x : N) : option N := if x <=? U128_MAX then Some x else None.
+(** u128::saturating_mul / saturating_add of the exact result *)
+Definition sat128 (x : N) : N := N.min x U128_MAX.
+(** u64::try_from(count).unwrap_or(u64::MAX) *)
+Definition to_u64_sat (x : N) : N := if x <=? U64_MAX then x else U64_MAX.
 
-(** the numeral n / 10^f times 2^sh, through binary64, as u64 *)
-Definition parse_val (n f sh : N) : N :=
-  if n =? 0 then 0
-  else let '(m, e) := to53 n (10 ^ f) in f64_to_u64 m (e + Z.of_N sh).
+(** char::to_digit(10) *)
+Definition digit_val (c : N) : option N := if (48 <=? c) && (c <=? 57) then Some (c - 48) else None.
 
-Inductive bs_parsed := BsOk (n : N) | BsErrNumber | BsErrSuffix.
+(** digits.split_once('.').unwrap_or((&digits, "")) *)
+Fixpoint split_dot (l : text) : text * text :=
+  match l with
+  | [] => ([], [])
+  | c :: r => if c =? 46 then ([], r) else let '(w, f) := split_dot r in (c :: w, f)
+  end.
+
+(** integer = integer.saturating_mul(10).saturating_add(digit) *)
+Definition whole_step (acc c : N) : N :=
+  match digit_val c with
+  | Some d => sat128 (sat128 (acc * GenBytes.parse_base) + d)
+  | None => acc
+  end.
+
+(** partial = (digit * multiple + partial) / 10, unchecked operators: None = overflow panic *)
+Definition frac_step (multiple : N) (c : N) (acc : option N) : option N :=
+  match acc with
+  | None => None
+  | Some partial =>
+      match digit_val c with
+      | None => Some partial
+      | Some d =>
+          match chk128 (d * multiple) with
+          | None => None
+          | Some p => match chk128 (p + partial) with
+                      | None => None
+                      | Some s => Some (s / GenBytes.parse_base)
+                      end
+          end
+      end
+  end.
+
+Inductive bs_parsed := BsOk (n : N) | BsErrNumber | BsErrSuffix | BsPanic.
+
+(** the value computed from the accepted digit string and the multiplier *)
+Definition parse_count (digits : text) (multiple : N) : option N :=
+  let '(whole, fraction) := split_dot digits in
+  let integer := fold_left whole_step whole 0 in
+  match fold_right (frac_step multiple) (Some 0) fraction with
+  | None => None
+  | Some partial => Some (to_u64_sat (sat128 (sat128 (integer * multiple) + partial)))
+  end.
 
 Definition bs_parse (t : text) : bs_parsed :=
   let digits := take_while is_numch t in
   let suffix := skip_while is_numch t in
   match parse_number digits with
   | None => BsErrNumber
-  | Some (n, f) =>
+  | Some _ =>
       match lookup_unit suffix with
       | None => BsErrSuffix
-      | Some sh => BsOk (parse_val n f sh)
+      | Some sh =>
+          match parse_count digits (2 ^ sh) with
+          | Some n => BsOk n
+          | None => BsPanic
+          end
       end
   end.
 
 (* ---------- Display ---------- *)
-(** while value >= 1024.0 { value /= 1024.0; i += 1 }  with value = v / 1024^i held exactly *)
-Fixpoint unit_loop (fuel : nat) (v i : N) : option N :=
+(** while value >= 1024.0 { value /= 1024.0; unit = unit.saturating_mul(1024); i += 1 }
+    with value = v / 1024^i held exactly *)
+Fixpoint unit_loop (fuel : nat) (v i unit : N) : option (N * N) :=
   match fuel with
   | O => None
-  | S fu => if 1024 * 1024 ^ i <=? v then unit_loop fu v (i + 1) else Some i
+  | S fu => if 1024 * 1024 ^ i <=? v then unit_loop fu v (i + 1) (sat128 (unit * 1024)) else Some (i, unit)
   end.
 
 (** None = DISPLAY_SUFFIXES[i - 1] out of bounds (panic) *)
@@ -145,23 +185,44 @@ Definition unit_word (i v : N) : option text :=
   if i =? 0 then Some (if v =? 1 then GenBytes.word_one else GenBytes.word_many)
   else nth_error GenBytes.display_suffixes (N.to_nat (i - 1)).
 
-(** "{:.2}" of h hundredths *)
+(** "{}.{:02}" of h / 100 and h % 100 *)
 Definition fmt2 (h : N) : text :=
   dec (h / 100) ++ [46; 48 + (h mod 100) / 10; 48 + h mod 10].
 
 Definition trim_end (c : N) (l : text) : text := rev (skip_while (N.eqb c) (rev l)).
 Definition trim (l : text) : text := trim_end 46 (trim_end 48 l).
 
-(** hundredths of the unit that get printed: the exact value v / 1024^i to two decimals, ties to even *)
-Definition hundredths (v i : N) : N := rne_div (100 * v) (1024 ^ i).
+(** hundredths of the unit that get printed, from the integer itself: 100 n / unit rounded to
+    nearest, ties to even. None = a panic (overflow of a u128 operator, division by zero). *)
+Definition hundredths (n unit : N) : option N :=
+  match chk128 (GenBytes.disp_scale * n) with
+  | None => None
+  | Some scaled =>
+      if unit =? 0 then None
+      else
+        let quotient := scaled / unit in
+        match chk128 (2 * (scaled mod unit)) with
+        | None => None
+        | Some twice =>
+            match twice ?= unit with
+            | Lt => Some quotient
+            | Eq => chk128 (quotient + quotient mod 2)
+            | Gt => chk128 (quotient + 1)
+            end
+        end
+  end.
 
 Definition bs_display (n : N) : option text :=
   let v := round53 n in
-  match unit_loop 8 v 0 with
+  match unit_loop 8 v 0 1 with
   | None => None
-  | Some i =>
+  | Some (i, unit) =>
       match unit_word i v with
       | None => None
-      | Some w => Some (trim (fmt2 (hundredths v i)) ++ 32 :: w)
+      | Some w =>
+          match hundredths n unit with
+          | None => None
+          | Some h => Some (trim (fmt2 h) ++ 32 :: w)
+          end
       end
   end.
